@@ -147,6 +147,91 @@ theorem dynamic_reset_keeps_inner (c : UStreamingDynamic) :
     c.reset.s.written = c.s.written := by
   simp [UStreamingDynamic.reset, UStreaming.reset, Uncompressed.reset]
 
+/-! ### whole histories of the streaming variants -/
+
+theorem flush_keeps_metadata (c : UStreaming) : (c.flush).1.inner.metadata = c.inner.metadata := by
+  unfold UStreaming.flush
+  by_cases hp : c.info.2 = 0
+  · simp [hp]
+  · simp only [hp, ite_false]
+    cases hr : c.resolve with
+    | none => rfl
+    | some docs => simp [UStreaming.reset, Uncompressed.reset]
+
+theorem inner_add_log (u : Uncompressed) (d : BDoc) :
+    (u.add d).1.metadata = u.metadata ∧
+    ((u.add d).2 = .ok → (u.add d).1.samples = u.samples ++ [d]) ∧
+    ((u.add d).2 ≠ .ok → (u.add d).1.samples = u.samples) := by
+  unfold Uncompressed.add
+  dsimp only
+  by_cases h1 : d.length ≠ (if u.metricCount = 0 then d.length else u.metricCount)
+  · rw [if_pos h1]; simp
+  · rw [if_neg h1]
+    by_cases h2 : u.samples.length ≥ u.batchSize
+    · rw [if_pos h2]; simp
+    · rw [if_neg h2]; simp
+
+/-- one `Add`, remembering the accepted documents -/
+def uaddLog (acc : UStreaming × List BDoc) (d : BDoc) : UStreaming × List BDoc :=
+  let r := acc.1.add d
+  (r.1, if r.2 then acc.2 ++ [d] else acc.2)
+
+theorem ustreaming_step (c : UStreaming) (acc : List BDoc) (d : BDoc) (hm : c.inner.metadata = none)
+    (h : c.written.flatten ++ c.inner.samples = acc) :
+    (uaddLog (c, acc) d).1.inner.metadata = none ∧
+    (uaddLog (c, acc) d).1.written.flatten ++ (uaddLog (c, acc) d).1.inner.samples = (uaddLog (c, acc) d).2 := by
+  have key : ∀ (c1 : UStreaming), c1.inner.metadata = none → c1.written.flatten ++ c1.inner.samples = acc →
+      (let r := c1.inner.add d
+       let c2 : UStreaming × Bool := if r.2 = .ok then ({ c1 with inner := r.1, count := c1.count + 1 }, true)
+                                     else ({ c1 with inner := r.1 }, false)
+       c2.1.inner.metadata = none ∧ c2.1.written.flatten ++ c2.1.inner.samples = (if c2.2 then acc ++ [d] else acc)) := by
+    intro c1 hm1 h1
+    obtain ⟨a1, a2, a3⟩ := inner_add_log c1.inner d
+    by_cases hok : (c1.inner.add d).2 = .ok
+    · simp only [hok, if_true]
+      refine ⟨by rw [a1]; exact hm1, ?_⟩
+      rw [a2 hok, ← List.append_assoc, h1]
+    · simp only [hok, if_false]
+      refine ⟨by rw [a1]; exact hm1, ?_⟩
+      rw [a3 hok]; simpa using h1
+  unfold uaddLog UStreaming.add
+  by_cases hfull : c.count ≥ c.maxSamples
+  · simp only [hfull, if_true]
+    have hcons := streaming_flush_conserves c hm
+    have hmeta := flush_keeps_metadata c
+    by_cases hok : (c.flush).2 = true
+    · simp only [hok, Bool.not_true, Bool.false_eq_true, if_false]
+      have := key (c.flush).1 (by rw [hmeta]; exact hm) (by rw [hcons]; exact h)
+      by_cases hacc : ((c.flush).1.inner.add d).2 = .ok <;> simp_all
+    · have hok' : (c.flush).2 = false := by simpa using hok
+      simp only [hok', Bool.not_false, if_true]
+      exact ⟨by rw [hmeta]; exact hm, by rw [hcons]; simpa using h⟩
+  · simp only [hfull, if_false, Bool.not_true, Bool.false_eq_true]
+    have := key c hm h
+    by_cases hacc : (c.inner.add d).2 = .ok <;> simp_all
+
+/-- **The streaming uncompressed collector loses, duplicates and reorders nothing**: after any sequence
+of `Add`s, what has been written followed by the pending documents is exactly the accepted documents,
+byte for byte (they are the documents themselves), once each and in order. -/
+theorem ustreaming_faithful_log (n : Nat) (ds : List BDoc) :
+    let r := ds.foldl uaddLog (UStreaming.new n, [])
+    r.1.written.flatten ++ r.1.inner.samples = r.2 := by
+  have : ∀ (ds : List BDoc) (c : UStreaming) (acc : List BDoc), c.inner.metadata = none →
+      c.written.flatten ++ c.inner.samples = acc →
+      (ds.foldl uaddLog (c, acc)).1.written.flatten ++ (ds.foldl uaddLog (c, acc)).1.inner.samples =
+        (ds.foldl uaddLog (c, acc)).2 := by
+    intro ds
+    induction ds with
+    | nil => intro c acc _ h; exact h
+    | cons d ds ih =>
+      intro c acc hm h
+      obtain ⟨h1, h2⟩ := ustreaming_step c acc d hm h
+      simp only [List.foldl_cons]
+      have e : uaddLog (c, acc) d = ((uaddLog (c, acc) d).1, (uaddLog (c, acc) d).2) := rfl
+      rw [e]
+      exact ih _ _ h1 h2
+  exact this ds (UStreaming.new n) [] rfl (by simp [UStreaming.new])
+
 /-! non-vacuity -/
 example : Inv ({ batchSize := 2 } : Uncompressed) := ⟨by simp, by simp, by simp⟩
 
